@@ -6,6 +6,22 @@ NOTE = ('Trusted: Coq 8.16.1 kernel + vm_compute; the hand-written model is tied
         'the theorems.')
 
 CLAIMED = {
+    'C10': dict(
+        technique='Coq proof over a Gallina model of digitize / COO accumulation / the 1-D marginal + differential correspondence on edge-hitting integer data',
+        text='Theorems (Prop_C10.v) prove for all increasing edge lists and all frequency/amplitude arrays that each cell of the '
+             'spectrum is the sum of the weights of exactly the samples whose frequency lies in that half-open bin (in their own time '
+             'column), that out-of-range frequencies lie in no bin and a frequency lies in at most one, the same for the 1-D '
+             'spectrum, and that the time marginal of the 2-D spectrum equals the IMF marginal of the 1-D one. Correspondence on '
+             'every assignment of {below, negative, edge, mid-bin, last edge, above} values to small arrays and random larger ones; '
+             'oracle = per-sample brute-force histogram, dense = sparse = marginal.',
+        note=NOTE),
+    'C11': dict(
+        technique='Coq proof over a Gallina model of the folded sparse index / unfold / trim of holospectrum + differential correspondence',
+        text='Theorems (Prop_C11.v) prove fold/unfold of the two bin indices, the output shape, that each cell is the sum of weights of '
+             'exactly the samples whose carrier and AM frequencies lie in its two bins (nothing if either is out of range), and that '
+             'the time-summed output is the sum over time of the full output. Correspondence + triple-loop oracle on integer data for '
+             'all three squash_time settings.',
+        note=NOTE),
     'C12': dict(
         technique='Coq proof over a Gallina model of get_cycle_vector + exhaustive differential correspondence (all phase sequences up to length 6/8 over a 5-value alphabet)',
         text='Theorems (Prop_C12.v, closed under the global context) prove for every phase list, threshold set, mask and mode that '
